@@ -113,7 +113,7 @@ fn queue_action(w: &mut W, ex: &mut Exp, pos: u8, kind: u8, t: usize) -> (Option
             (Some(10 + pos), Some(20 + pos))
         }
         // a lazily built entity with a component (kind 6: its deletion is requested before
-        // maintain, so the queued insertion must be skipped)
+        // maintain, kind 7: it is deleted at once - so the queued insertion must be skipped)
         _ => {
             let e = {
                 let ents = w.world.entities();
@@ -121,10 +121,33 @@ fn queue_action(w: &mut W, ex: &mut Exp, pos: u8, kind: u8, t: usize) -> (Option
                 lazy.create_entity(&ents).with(CB(x)).build()
             };
             assert!(w.world.entities().is_alive(e), "C09/C02: a lazily built entity is not alive for its creator");
-            if kind == 6 {
-                let r = w.world.entities().delete(e);
-                assert!(r.is_ok(), "C09/C02: deferred delete of a live entity was refused");
-                forget(r);
+            if kind >= 6 {
+                // The deletion is requested through a copy of the handle rebuilt with the index
+                // the HARNESS expects from the (concrete) liveness pattern: the free list holds
+                // the dead indices in ascending order and atomic creation takes its last entry.
+                // The index that comes out of the allocator's `Option`-returning free-list pop is
+                // not a constant for the symbolic executor, and a deferred delete with a symbolic
+                // index costs > 12 GB. The expectation is an ASSUMPTION (a different but legal
+                // choice of index makes the query vacuous, which the end witness reports as a
+                // broken check, never as a violation).
+                let mut c = NI;
+                for i in 0..NI {
+                    if !w.st[i].occupied() {
+                        c = i;
+                    }
+                }
+                let g = if c < NI { w.st[c].mag() + 1 } else { 1 };
+                let ec = Entity::verif_new(c as Index, g);
+                nd::assume(ec == e);
+                if kind == 6 {
+                    let r = w.world.entities().delete(ec);
+                    assert!(r.is_ok(), "C09/C02: deferred delete of a live entity was refused");
+                    forget(r);
+                } else {
+                    let r = w.world.delete_entity(ec);
+                    assert!(r.is_ok(), "C09/C02: immediate delete of a live entity was refused");
+                    forget(r);
+                }
             }
             let (id, g) = (e.id(), e.gen().id());
             let mut found = false;
@@ -132,9 +155,15 @@ fn queue_action(w: &mut W, ex: &mut Exp, pos: u8, kind: u8, t: usize) -> (Option
                 if id == IDS[i] {
                     assert!(!w.st[i].occupied(), "C09/C01: an occupied index was handed out");
                     assert!(g == w.st[i].mag() + 1, "C09/C01: the lazily built entity's generation is not new");
-                    w.st[i].raised = true;
+                    if kind == 7 {
+                        // created atomically and deleted at once: dead again, one generation on
+                        w.st[i].g = -g;
+                    } else {
+                        w.st[i].raised = true;
+                    }
                     if kind == 6 {
                         w.st[i].killed = true;
+                    } else if kind == 7 {
                     } else {
                         ex.alive[i] = true;
                         ex.gen[i] = g;
